@@ -8,10 +8,11 @@ S  (structural)  the loop body of normalizeStringForPostscript is a function of 
                  `allowSpaces` only (checked on the function's AST), so f(s) is the concatenation of f(s[i]);
                  the concatenation step itself is lemma C16.concat_preserves_chars (SMT).  A bounded random
                  cross-check of f(s) == ''.join(f(c) for c in s) runs as well.
-T  (conformance) the trusted clause for fontTools' binary2num, on all digit strings up to a length + random.
+T  (conformance) the trusted clause for fontTools' binary2num, on all digit strings up to a length + random; the trusted
+                 date / environment library models (strftime / strptime / timegm / fromtimestamp / int(str)).
 A  (call sites)  every literal call site of intListToNum / getAttrWithFallback / InfoCompiler._set_attrs in the
                  repo is covered by a contract variant (the variants are per literal argument).
-F  (bounded)     the six special fallbacks outside pyvc's subset against independent formulas.
+F  (bounded)     the special fallbacks still outside pyvc's subset (contracts/c16.py OUT_OF_REACH) against independent formulas.
 I  (bounded)     InfoCompiler end to end: overrides incl. 0 / False / [] reach the original font's tables.
 O  (bounded)     observer: small UFOs with random subsets of info attributes -> compile (TTF and OTF) -> save ->
                  reload -> name / OS/2 / hhea / head / post / CFF fields against an independent statement of
@@ -245,6 +246,40 @@ def conf_binary2num(res: Res, tier, seed):
     res.r["bounded"].append({"what": "conformance of the trusted clause for fontTools binary2num", "method": "all strings over {'0','1',' '} up to the bound + 2000 random byte-grouped strings against the clause's executable reading", "bound": f"length <= {maxlen}"})
     if bad is not None:
         res.r["checker_errors"].append(f"trusted clause for binary2num does not conform: {bad!r} -> {binary2num(bad)} vs model {binary2num_model(bad)}")
+    conf_dates(res, tier, seed)
+
+
+def conf_dates(res: Res, tier, seed):
+    """trusted library models of contracts/c16.py for dates: (a) datetime.fromtimestamp(n, utc).strftime(FMT) is
+    utc_date_string(n) (stated independently through time.gmtime); (b) what time.strftime(FMT, ..) produces is accepted by
+    time.strptime(.., FMT) and calendar.timegm gives the instant back; (c) int(s) accepts s iff int_literal(s)"""
+    from datetime import datetime, timezone
+
+    from contracts import c16 as K
+
+    rng = random.Random(seed + 7)
+    n = 2000 if tier == "quick" else 50000
+    bad = None
+    for k in range(n):
+        t = rng.choice([0, 1, 86399, 86400, 951782400, 1577934245, 2**31 - 1, 2**31, 4102444800]) if k < 20 else rng.randint(-2208988800, 32503680000)  # 1900 .. 3000
+        a = datetime.fromtimestamp(t, timezone.utc).strftime(K._DATE_FMT)
+        if a != K.utc_date_string(t) or K.utc_error(t) != "":
+            bad = bad or f"utc_date_string({t}) = {K.utc_date_string(t)!r} but datetime gives {a!r}"
+        if not K.date_valid(a) or K.date_seconds(a) != t:
+            bad = bad or f"date string {a!r} of instant {t}: date_valid={K.date_valid(a)}, date_seconds={K.date_seconds(a) if K.date_valid(a) else None}"
+    for s_ in ["0", "-5", " 12 ", "1_0", "", "abc", "1e3", "１２", "+7", "0x10", "12.0"]:
+        try:
+            int(s_)
+            ok = True
+        except ValueError:
+            ok = False
+        if ok != K.int_literal(s_) or (ok and int(s_) != K.int_value(s_)):
+            bad = bad or f"int({s_!r})"
+    res.r["evaluations"] += n
+    res.r["trusted"].append("time.strptime / calendar.timegm / time.strftime / time.gmtime / datetime.fromtimestamp / int(str) / os.environ (clauses in contracts/c16.py; bounded conformance in the hook)")
+    res.r["bounded"].append({"what": "conformance of the trusted date / environment models", "method": "instants 1900..3000: datetime.fromtimestamp(n, utc).strftime == utc_date_string(n), the string parses back to n; int() literals", "bound": f"{n} instants"})
+    if bad is not None:
+        res.r["checker_errors"].append(f"trusted date model does not conform: {bad}")
 
 
 # ---------------------------------------------------------------------------------------------------------
@@ -574,7 +609,9 @@ def fallback_functions(res: Res, tier, seed):
                        {"clause": "explicit value returned unchanged, else the documented fallback", **({"contract": f"ufo2ft.fontInfoData:getAttrWithFallback#{a}", "case": {"attrs": f["info"], "bare": True}} if a not in K.OUT_OF_REACH else {"case": f}),
                         "observed": f, "reproduce": f"getAttrWithFallback(SimpleNamespace(**{{a: None for a in ATTRS}}, **info), {a!r})"})
         )
-    res.r["bounded"].append({"what": "special fallbacks outside pyvc's subset (openTypeHeadCreated under SOURCE_DATE_EPOCH, openTypeNameVersion, openTypeNameUniqueID, postscriptFontName, postscriptFullName, postscriptBlueScale) — and all other attributes again — against an independent statement of the documented fallbacks",
+    from contracts import c16 as K2
+
+    res.r["bounded"].append({"what": f"special fallbacks outside pyvc's subset ({', '.join(sorted(K2.OUT_OF_REACH))}) — and all other attributes again (openTypeHeadCreated under SOURCE_DATE_EPOCH) — against an independent statement of the documented fallbacks",
                              "method": "random fontinfo subsets on a duck-typed info object", "bound": f"{n} info objects x {len(K.ATTR_TYPES)} attributes"})
 
 
